@@ -25,6 +25,9 @@ type Obligation struct {
 	Desc      string
 	Vacuity   bool // a cover: the goal is expected to be SATISFIABLE (reachability)
 	ModelVars []string
+	light     bool
+	dropped   int
+	Block     int        // block of the verified function in which the obligation arises (-1: none)
 	Merges    [][]string // edge conditions of the merge points passed so far (for case splitting)
 	vc        *VC
 }
@@ -137,6 +140,9 @@ type VC struct {
 	heldOnEntry map[string]bool
 	lockChecksOff bool
 	nquant int
+	lineTags []int
+	globalFact bool
+	ancestors map[int]map[int]bool
 	nameSigOverride *types.Signature
 	immutable map[string]bool
 	merges [][]string
@@ -180,7 +186,7 @@ func newVC(p *Prog, fnName string) *VC {
 		strLits: map[string]string{}, used: newUsage(), nameCount: map[string]int{},
 		ifaceAsserted: map[string]types.Type{}, tagFactsDone: map[string]bool{}, lenHint: map[string]int{},
 	}
-	vc.out = append(vc.out, smtPrelude)
+	vc.push(smtPrelude)
 	vc.st = newState()
 	vc.st.m["alloc"] = "alloc@0"
 	vc.entry = vc.st.clone()
@@ -189,7 +195,26 @@ func newVC(p *Prog, fnName string) *VC {
 }
 
 func (vc *VC) emit(format string, args ...any) {
-	vc.out = append(vc.out, fmt.Sprintf(format, args...))
+	vc.push(fmt.Sprintf(format, args...))
+}
+
+// push appends one top-level SMT command, tagged with the block of the
+// function under verification in which it was produced (-1: always kept).
+// Only assertions are ever sliced away; declarations and definitions stay.
+func (vc *VC) push(line string) {
+	tag := -1
+	if strings.HasPrefix(line, "(assert") && !vc.globalFact {
+		tag = vc.curTag()
+	}
+	vc.out = append(vc.out, line)
+	vc.lineTags = append(vc.lineTags, tag)
+}
+
+func (vc *VC) curTag() int {
+	if vc.top != nil && vc.top.curBlock != nil && vc.top.isTop {
+		return vc.top.curBlock.Index
+	}
+	return -1
 }
 
 func (vc *VC) declare(name, decl string) {
@@ -198,7 +223,7 @@ func (vc *VC) declare(name, decl string) {
 	}
 	vc.declared[name] = true
 	vc.declLog = append(vc.declLog, name)
-	vc.out = append(vc.out, decl)
+	vc.push(decl)
 }
 
 func (vc *VC) errorf(format string, args ...any) {
@@ -215,6 +240,7 @@ func (vc *VC) checkpoint() checkpoint {
 
 func (vc *VC) rollback(cp checkpoint) {
 	vc.out = vc.out[:cp.outLen]
+	vc.lineTags = vc.lineTags[:cp.outLen]
 	vc.obls = vc.obls[:cp.oblLen]
 	for _, n := range vc.declLog[cp.declLen:] {
 		delete(vc.declared, n)
@@ -238,7 +264,7 @@ func (vc *VC) rollback(cp checkpoint) {
 func (vc *VC) fresh(hint, sort string) string {
 	vc.nfresh++
 	name := fmt.Sprintf("%s!%d", sanitize(hint), vc.nfresh)
-	vc.out = append(vc.out, fmt.Sprintf("(declare-const %s %s)", name, sort))
+	vc.push(fmt.Sprintf("(declare-const %s %s)", name, sort))
 	return name
 }
 
@@ -250,9 +276,10 @@ func (vc *VC) define(hint, sort, term string) string {
 	case "Int", "Slice", "Iface", "Str":
 		// atomic constants (not macros) keep index terms in the syntactic shape
 		// that quantifier triggers need
-		vc.out = append(vc.out, fmt.Sprintf("(declare-const %s %s)\n(assert (= %s %s))", name, sort, name, term))
+		vc.push(fmt.Sprintf("(declare-const %s %s)", name, sort))
+		vc.push(fmt.Sprintf("(assert (= %s %s))", name, term))
 	default:
-		vc.out = append(vc.out, fmt.Sprintf("(define-fun %s () %s %s)", name, sort, term))
+		vc.push(fmt.Sprintf("(define-fun %s () %s %s)", name, sort, term))
 	}
 	return name
 }
@@ -291,7 +318,7 @@ func (vc *VC) oblige(kind, label, goal string, pos token.Pos, desc string) {
 		full = fmt.Sprintf("(=> %s %s)", vc.reach, goal)
 	}
 	name := vc.uniqueName(fmt.Sprintf("%s#%s[%s]", vc.curFuncName(), kind, label))
-	o := &Obligation{Name: name, Kind: kind, Func: vc.fnName, Goal: full, PrefixLen: len(vc.out), Desc: desc, vc: vc}
+	o := &Obligation{Name: name, Kind: kind, Func: vc.fnName, Goal: full, PrefixLen: len(vc.out), Desc: desc, vc: vc, Block: vc.curTag()}
 	o.Merges = append(o.Merges, vc.merges...)
 	if pos.IsValid() {
 		o.Pos = vc.p.fset.Position(pos)
@@ -306,7 +333,7 @@ func (vc *VC) cover(label string, pos token.Pos) {
 		return
 	}
 	name := vc.uniqueName(fmt.Sprintf("%s#cover[%s]", vc.curFuncName(), label))
-	o := &Obligation{Name: name, Kind: "cover", Func: vc.fnName, Goal: vc.reach, PrefixLen: len(vc.out), Vacuity: true, vc: vc}
+	o := &Obligation{Name: name, Kind: "cover", Func: vc.fnName, Goal: vc.reach, PrefixLen: len(vc.out), Vacuity: true, vc: vc, Block: vc.curTag()}
 	if pos.IsValid() {
 		o.Pos = vc.p.fset.Position(pos)
 	}
@@ -333,9 +360,32 @@ func (o *Obligation) ScriptWith(extra []string) string {
 	return o.script(&sb, extra)
 }
 
+// LightScript drops the assertions that involve real arithmetic (sound:
+// fewer assumptions); it is tried when the full script is not decided.
+func (o *Obligation) LightScript() (string, bool) {
+	o.light = true
+	defer func() { o.light = false }()
+	s := o.ScriptWith(nil)
+	return s, o.dropped > 0
+}
+
 func (o *Obligation) script(sbp *strings.Builder, extra []string) string {
+	o.dropped = 0
 	var sb strings.Builder
-	for _, l := range o.vc.out[:o.PrefixLen] {
+	var keep map[int]bool
+	if o.Block >= 0 && o.vc.ancestors != nil {
+		keep = o.vc.ancestors[o.Block]
+	}
+	for i, l := range o.vc.out[:o.PrefixLen] {
+		// slice away assertions made in blocks that cannot reach this one in
+		// the loop-cut control-flow graph (dropping assumptions is sound)
+		if keep != nil && o.vc.lineTags[i] >= 0 && !keep[o.vc.lineTags[i]] {
+			continue
+		}
+		if o.light && strings.HasPrefix(l, "(assert") && (strings.Contains(l, "to_int") || strings.Contains(l, "to_real")) {
+			o.dropped++
+			continue
+		}
 		sb.WriteString(l)
 		sb.WriteString("\n")
 	}
@@ -648,14 +698,17 @@ func (vc *VC) strLit(s string) string {
 	vc.strLits[s] = name
 	vc.declared["strlit:"+s] = true
 	vc.declLog = append(vc.declLog, "strlit:"+s)
-	vc.out = append(vc.out, fmt.Sprintf("(declare-const %s Str) ; %q", name, truncate(s, 40)))
-	vc.out = append(vc.out, fmt.Sprintf("(assert (= (slen %s) %d))", name, len(s)))
+	saveG := vc.globalFact
+	vc.globalFact = true
+	defer func() { vc.globalFact = saveG }()
+	vc.push(fmt.Sprintf("(declare-const %s Str) ; %q", name, truncate(s, 40)))
+	vc.push(fmt.Sprintf("(assert (= (slen %s) %d))", name, len(s)))
 	for _, o := range vc.strOrder {
-		vc.out = append(vc.out, fmt.Sprintf("(assert (not (= %s %s)))", name, vc.strLits[o]))
+		vc.push(fmt.Sprintf("(assert (not (= %s %s)))", name, vc.strLits[o]))
 	}
 	if len(s) <= 16 {
 		for i := 0; i < len(s); i++ {
-			vc.out = append(vc.out, fmt.Sprintf("(assert (= (sat %s %d) %d))", name, i, s[i]))
+			vc.push(fmt.Sprintf("(assert (= (sat %s %d) %d))", name, i, s[i]))
 		}
 	}
 	vc.strOrder = append(vc.strOrder, s)
